@@ -142,7 +142,13 @@ def batch_case(draw):
     # synchronisation vectors (pairs that must be disjoint): a request is then computed together with the requests of its
     # vectors, in the order of the vector - and still independently of every other request and of the batch order
     sync = []
-    if n >= 2 and draw(st.integers(0, 2)) == 0:
+    if n >= 4 and draw(st.integers(0, 5)) == 0:
+        # two separate vectors holding requests between the same two sites (told apart by their number of channels)
+        a, b, c, d = draw(st.permutations(list(range(n))))[:4]
+        for twin, of in ((c, a),) + (((d, b),) if draw(st.booleans()) else ()):
+            reqs[twin] = dict(copy.deepcopy(reqs[of]), nch=41 + twin)
+        sync = [[a, b], [c, d]]
+    elif n >= 2 and draw(st.integers(0, 2)) == 0:
         for _ in range(draw(st.integers(1, 2))):
             a, b = draw(st.permutations(list(range(n))))[:2]
             if [a, b] not in sync and [b, a] not in sync:
